@@ -45,7 +45,7 @@ MANIFEST = dict(
          "comparing the tokens of the implementation's echo with the model's print of the intended typed tree) and of "
          "escape/strip in Syntax/StrEsc.v (strip_and_escape is also exercised by the C10 correspondence); the C10 parser model; "
          "the generator's knowledge of how numbat elaborates its fully parenthesised sources. Eight echo defects were repaired by "
-         "fix: commits (phase 3: the echo of let / fn dropped the decorators, so aliases were lost), three are open findings (multi-name dimension types, implicit dimension of a base unit, product "
+         "fix: commits (phase 3: the echo of let / fn dropped the decorators, so aliases were lost), four are open findings (multi-name dimension types, implicit dimension of a base unit, sum re-association changing the display unit, product "
          "re-association not a fixed point).",
     technique="Coq proof (echo = concrete syntax tree; well-formedness by induction; reuse of the C10 round-trip theorem) + "
               "printer-model correspondence + metamorphic echo oracle on the real interpreter",
@@ -324,6 +324,17 @@ def known_for(case, r, what):
             mm = re.search(r"(?:^|\n)unit (\w+): (\w+)$", r["echo"])
             if mm and mm.group(2).lower() == mm.group(1).replace("_", "").lower():
                 return f
+        if m.get("kind") == "sum-on-the-right":
+            # a parenthesised sum on the right of `+` lost its parentheses; the two results have the same
+            # dimension and differ in the display unit only; and the interpreter itself says they are equal
+            t1 = re.match(r"^\S+ (.*?)\s+\[(\w+)\]$", r["v1"])
+            t2 = re.match(r"^\S+ (.*?)\s+\[(\w+)\]$", r["v2"])
+            if "+ (" in case["stmt"] and t1 and t2 and t1.group(2) == t2.group(2) and t1.group(1) != t2.group(1) \
+                    and _BINARY is not None:
+                q = dict(setup=case["setup"], stmt="(%s) == (%s)" % (case["stmt"], r["echo"]), probe="")
+                rr = run_echo(_BINARY, [q])[0]
+                if rr["status"] == "OK" and rr["v1"].startswith("true"):
+                    return f
         if m.get("kind") == "times-only":
             # the two echoes differ only in explicit vs. juxtaposed multiplication, and the values agree
             strip = lambda s: re.sub(r"\s+", " ", s.replace("×", " "))
@@ -332,8 +343,13 @@ def known_for(case, r, what):
     return None
 
 
+_BINARY = None
+
+
 def run(chk):
+    global _BINARY
     binary, _ = common.build_harness()
+    _BINARY = binary
     proved = chk.prove("Props.C15", THEOREMS, ["theories/Props/C15.vo"] + EXTRA_VO, allowed=ALLOWED_AXIOMS)
     chk.trusted += TRUSTED
     quick = chk.tier == "quick"
